@@ -591,6 +591,7 @@ def run(c):
     status_hist = {}
     tokkinds = {}
     corr_bad = []           # impl trace != model trace
+    hung = []
     oracle_bad = []         # impl behaviour != interpreter behaviour
     guard_bad = []          # emitted guard literals != name_match_spec
     guard_corr_bad = []
@@ -629,6 +630,11 @@ def run(c):
         eq, fa, fb = raw_equal(ir, mraw)
         if not eq:
             corr_bad.append(i)
+        elif 'LIMIT' in ir and mstatus in ('terminated', 'blocked', 'queue-full'):
+            # the model comes to rest within K_ITER iterations, the emitted model is still running after SPIN_STEPS
+            # statements (e.g. a loop counter too narrow for its bound): a prefix that agrees is no agreement
+            corr_bad.append(i)
+            hung.append(i)
         # numbering: the annotated document must number states and transitions as the model does
         ann = r['ann']
         # (<initial> elements and the root have no id)
@@ -654,6 +660,8 @@ def run(c):
             if j not in g:
                 continue
             impl_l = g[j]['literals']
+            if impl_l == [] and j < len(gm) and gm[j] == '-' and (guard_trans(x['tree'], j) or {}).get('cond') == 'false':
+                impl_l = None       # `&& (false)` is the parenthesised condition "false" of a transition without event test
             impl_s = '-' if impl_l is None else '[' + ','.join(sorted(set(z.encode('latin-1').hex() for z in impl_l))) + ']'
             hist['transitions_with_event'] += impl_l is not None
             if j < len(gm) and impl_s != gm[j]:
@@ -677,7 +685,12 @@ def run(c):
             lines.append(mline('0' * NV, cases[i]['tree'], caps))
         mo, _ = run_lines_sharded(vm, lines, timeout=1500)
         per = NV + 1
+        # the oracle itself must be reproducible: the large engine is run again on these charts
+        large2, _ = run_lines_sharded(vd, [impl_line('large', cases[i]['tree'], 'promela', False, []) for i in idxs], timeout=1500)
         for n, i in enumerate(idxs):
+            if view_interp(large2[n]) != view_interp(large[i]):
+                classes.setdefault('interpreter-not-reproducible(large-engine)', []).append(i)
+                continue
             vi, itr = view_interp(large[i])
             vf, ftr = view_interp(fast[i])
             vp, ptr, pq = view_impl(res[i])
@@ -737,6 +750,7 @@ def run(c):
                      'non-trivial = distinct chart whose emitted model visits at least 3 configurations') % (len(wit), nrand)
     c.cov['input_distribution'] = dict(hist, transpile_status=status_hist, trace_line_kinds=tokkinds, runs_filling_a_channel=qfull)
     c.cov['model_disagreements'] = len(corr_bad)
+    c.cov['emitted_model_still_running_where_the_model_rests'] = len(hung)
     c.cov['guard_literal_disagreements'] = {'with_model': len(guard_corr_bad), 'with_name_match_spec': len(guard_bad)}
     c.cov['event_attributes'] = {'distinct': len(attrs), 'satisfying_the_hypothesis_of_trie_guard_literals_correct': sum(1 for a in attrs if resolvable.get(a) == '1'),
                                  'outside': [a.decode('latin-1') for a in attrs if resolvable.get(a) != '1'][:10]}
@@ -856,7 +870,12 @@ def range_probes(vd, work, build):
 
 
 def guard_attr(tree, j):
-    """event attribute of the transition with post-fix index j (children before parents, pseudo-states first)"""
+    t = guard_trans(tree, j)
+    return t['ev'] if t else None
+
+
+def guard_trans(tree, j):
+    """the transition with post-fix index j (children before parents, pseudo-states first)"""
     order = []
 
     def walk(n):
@@ -870,7 +889,7 @@ def guard_attr(tree, j):
             walk(k)
         order.extend(n['trans'])
     walk(tree)
-    return order[j]['ev'] if j < len(order) else None
+    return order[j] if j < len(order) else None
 
 
 def determinism_seeds(c, its, work, build):
